@@ -89,6 +89,22 @@ CHECKS = {
         note='trusted: edit classification per RFC 4253/4419/5656/8731, '
              'refssh KEXINIT parser/negotiator',
         design='3/C03'),
+    'C06': dict(
+        level='fault_enumeration',
+        technique='runtime monitoring under fault injection: reference peer '
+                  'as hostile endpoint injecting message type x position x '
+                  'form x strict-KEX, differential against a reference '
+                  'dialogue, reply-type monitor, strict-KEX / Terrapin / '
+                  'unsolicited-success scenarios',
+        text='At every position of the handshake and authentication '
+             'dialogue, in both roles, an extra message of each type is '
+             'sent; out-of-phase or wrong-role messages may only end the '
+             'connection or be answered UNIMPLEMENTED/ignored with an '
+             'application-visible outcome identical to the reference run; '
+             'strict-KEX fatal cases, sequence reset, prefix-truncation and '
+             'success-without-request are decided by dedicated scenarios.',
+        note='trusted: conservative out-of-phase table; reference peer',
+        design='3/C06'),
     'C07': dict(
         level='exploration',
         technique='runtime monitoring: self-identifying payload streams + '
